@@ -698,11 +698,21 @@ class C13(Check):
         "restored faithfully or recomputed (dict_roundtrip_generic / dict_roundtrip_tables), and that condition is decided on the tables "
         "regenerated from the current from_dict (ast) and to_dict (reflection) on every run (dict_tables_ok); append-to-empty equals "
         "create; the rule text form (AND of OR-groups since fb98e708) re-parses to the normal form of EVERY condition tree, with the same "
-        "groups and truth value (the old in-order text is kept as pinned counterexample). The real from_dict / JSON / read_json / append paths are run on generated API-built models "
+        "groups and truth value (the old in-order text is kept as pinned counterexample). Non-element sections (Props/C13Sections): the option groups "
+        "(fields emitted vs constructor parameters stored, by ast of options.py), the dictionary's own keys and the keys of rule / simple control entries are "
+        "tables regenerated on every run and decided (option_tables_ok, section_tables_ok); the text of a simple Control is re-read to the same control by the "
+        "repaired from_dict for every element kind / attribute / relation / value (simple_roundtrip_repaired), the coded reader through _read_control_line is "
+        "not faithful (two counterexample theorems = the two known findings) except on the [CONTROLS]-expressible fragment (simple_coded_partial), and which "
+        "reader the source has is read by ast (generated_reader_full_iff); appending into a NON-empty model is accepted iff the new names are free in the five "
+        "refusing name spaces and then gives the union in order, never overwriting (append_disjoint_is_union, append_ok_iff, append_never_overwrites; "
+        "curves are overwritten in place, name / references / options replaced). The real from_dict / JSON / read_json / append paths are run on generated API-built models "
         "and the example INP files and compared key by key.",
         design_ref="DESIGN.md §5 C13",
         note="modelled, not verified: attribute values are opaque (the per-type setters/validators of elements.py are exercised by the "
-        "correspondence only); options are restored by Options.__init__(**d) and checked by the correspondence only; a truthiness-guarded "
+        "correspondence only); option VALUES go through the groups' __setattr__ validators (exercised by the correspondence, incl. report / graphics / user); "
+        "numbers in control texts are opaque tokens (Python: float(repr(x)) == x) and time tokens are opaque; SimTimeCondition with repeat / first_time, "
+        "TimeOfDayCondition with repeat=False / first_day, RelativeCondition and And/Or inside a simple Control have no text form (not generated); the priority and "
+        "registry name of a simple Control are not in the dictionary; a truthiness-guarded "
         "assignment is taken as faithful for truthy values; trusted: the ast/reflection translator in harness/props/c13.py",
         technique="Lean 4 proof over translator-regenerated schema tables + differential run against the Lean driver + round-trip oracle on the implementation",
     )
